@@ -85,6 +85,13 @@ def body(chk: check.Check):
         chk.replayed -= st['cases']   # the same cases a second time: counted once
         stats[name]['numeric_cases'] = st['cases']
         stats[name]['numeric_comparisons'] = st['comparisons']
+        # the same sample with every scale / nest / allocation parameter a free parameter built at a neutral starting
+        # value and evaluated at its real value
+        if name in ('nl', 'cnl', 'cnl4', 'nl4') or any(r_['kind'] in ('nl', 'cnl') for r_ in picked[:1]):
+            results = par.pmap(cm.c05_neutral_start, picked, chunk=max(8, len(picked) // 64), timeout=900)
+            st = cm.report(chk, f'{name} (parameters given at evaluation)', picked, results)
+            chk.replayed -= st['cases']
+            stats[name]['neutral_start_cases'] = st['cases']
     chk.extra['families'] = stats
     chk.extra['inexact_cases_compared_at_1e-9'] = sum(s.get('inexact_cases', 0) for s in stats.values())
     for name in emitted:
